@@ -99,6 +99,9 @@ type progOpts struct {
 	ij          bool                  // some prints read the injected data: {$ij.s}, {$ij.n}
 	customFunc  string                // name of a user-installed int -> int function to call now and then
 	onTemplates func(ts []*gtemplate) // receives the generated templates (params of every template, not only the entry)
+	// C07
+	allParams  bool // data sets supply optional params too
+	totalCalls bool // every call passes every callee param (optional ones too); no data="$expr"
 }
 
 type progGen struct {
@@ -678,7 +681,7 @@ func (g *progGen) call(env genv, d int) string {
 				}
 			}
 		}
-	case recOK && g.r.Chance(60):
+	case recOK && !g.o.totalCalls && g.r.Chance(60):
 		g.feat("call-data-expr")
 		rv := env.ofKind(kRec)
 		sb.WriteString(" data=\"" + g.use(rv[g.r.Intn(len(rv))]) + "\"")
@@ -686,11 +689,23 @@ func (g *progGen) call(env genv, d int) string {
 	}
 	var params []string
 	for _, p := range callee.params {
-		if passAll && !g.r.Chance(25) {
-			continue
-		}
-		if p.optional && g.r.Chance(50) {
-			continue
+		if g.o.totalCalls {
+			covered := false
+			for _, q := range caller.params {
+				if q.name == p.name && q.k == p.k {
+					covered = true
+				}
+			}
+			if passAll && covered && !g.r.Chance(25) {
+				continue
+			}
+		} else {
+			if passAll && !g.r.Chance(25) {
+				continue
+			}
+			if p.optional && g.r.Chance(50) {
+				continue
+			}
 		}
 		k := p.k
 		if callee.rec && p.name == "n" {
@@ -870,7 +885,7 @@ func genValue(r *hx.Rand, k kind, o progOpts) data.Value {
 func genData(r *hx.Rand, params []gparam, o progOpts) data.Map {
 	m := data.Map{}
 	for _, p := range params {
-		if p.optional && r.Chance(40) {
+		if p.optional && !o.allParams && r.Chance(40) {
 			continue
 		}
 		m[p.name] = genValue(r, p.k, o)
